@@ -303,7 +303,7 @@ def generate(seed, tier):
         cases += interval_cases(mode, tier)
         cases += inter_cases(mode, tier, rng)
     cases += describe_cases(rng, tier)
-    nh = 30000 if tier == "thorough" else 3000
+    nh = 100000 if tier == "thorough" else 10000
     for i in range(nh):
         mode = "flt" if i % 2 else "rat"
         cases.append(history_case(rng, mode, i, 30 if tier != "thorough" else 40))
